@@ -68,11 +68,6 @@ def model_constants(m):
                 SnapSt="{" + ", ".join(map(tla_str, snapst)) + "}", MaxSnap=maxsnap, MaxOps=maxops, Excl="{}")
 
 
-def canon(state):
-    """TLC prints not yet normalised sets in construction order: sort the elements of (flat) sets."""
-    return re.sub(r"\{([^{}]*)\}", lambda m: "{" + ", ".join(sorted(x.strip() for x in m.group(1).split(",") if x.strip())) + "}", state)
-
-
 def selected(prefixes, names):
     return [n for n in names if any(n.startswith(p) for p in prefixes)]
 
@@ -111,8 +106,8 @@ def model_pass(ctx, name, prefixes):
                 # <<"EDGE", "<json label>", "<state>", "<state>">>  (TLC string escapes = JSON string escapes)
                 parts = json.loads("[" + line[2:-2] + "]")
                 a = json.loads(parts[1])
-                s = ids.setdefault(canon(parts[2]), len(ids))
-                t = ids.setdefault(canon(parts[3]), len(ids))
+                s = ids.setdefault(parts[2], len(ids))
+                t = ids.setdefault(parts[3], len(ids))
                 f.write(json.dumps({"a": a, "s": s, "t": t}) + "\n")
                 nedges += 1
             elif line.startswith('"MVERDICT '):
